@@ -9,14 +9,14 @@ theorem isMixShape_true {t : Tbl} {o : Nat} {r : Ex} (h : isMixShape t o r = tru
   | un y => simp [isMixShape] at h
   | node k args => simp [isMixShape] at h
 
-theorem mixParts_of_shape {t : Tbl} {c : Cells} {o s : Nat} (a b : Ex) (hm : t.mix o = some s)
-    (hd : c.dropR o (.bin s) = true) :
-    mixParts t (policyOf c) o (.bin a s b) = some (a, s, b) := by
-  simp [mixParts, hm, policyOf, kindOf, hd]
+theorem mixParts_of_shape {c : Cells} {o s : Nat} (a b : Ex) (hm : c.mixOf o = some s) :
+    mixParts (policyOf c) o (.bin a s b) = some (a, s, b) := by
+  simp [mixParts, hm, policyOf]
 
-theorem mixParts_none {t : Tbl} {p : Policy} {o : Nat} {r : Ex} (h : isMixShape t o r = false) :
-    mixParts t p o r = none := by
+theorem mixParts_none {t : Tbl} {p : Policy} {o : Nat} {r : Ex} (hag : t.mix o = p.mixOf o)
+    (h : isMixShape t o r = false) : mixParts p o r = none := by
   unfold mixParts
+  rw [← hag]
   cases hm : t.mix o with
   | none => rfl
   | some s =>
@@ -95,14 +95,13 @@ theorem left_ok {t : Tbl} {c : Cells} {ops : List Nat} (hT : TableOK t c ops) {n
         obtain ⟨a, s, b, hr, hm⟩ := isMixShape_true hshape
         subst hr
         obtain ⟨hso, hwa, hwb⟩ := wfMix_bin hrest
-        obtain ⟨_, hhack, _⟩ := hT.mixHack i hio s hm
-        have hmp := mixParts_of_shape (t := t) (c := c) a b hm hhack
+        have hmp := mixParts_of_shape (c := c) a b (by rw [← hT.mixAgree i hio]; exact hm)
         refine .binMix l' i _ a s b hmp (fun _ => h3) ?_
         intro hdb
-        have hdb' : c.dropR s (kindOf b) = true := hdb
+        have hdb' : c.dropMR i (kindOf b) = true := hdb
         have hbge : AllGE t (policyOf c) ops (t.rbp2 i) b := by
           refine bare_allGE ih b (by simp only [Ex.size] at hs; omega) hwb _
-            (ne_un_of_cell hdb' (fun h => by rw [h]; exact hT.unR s hso)) ?_
+            (ne_un_of_cell hdb' (fun h => by rw [h]; exact hT.unMR i hio)) ?_
           intro k hk
           have hkin : k ∈ ops := by
             cases b with
@@ -117,7 +116,8 @@ theorem left_ok {t : Tbl} {c : Cells} {ops : List Nat} (hT : TableOK t c ops) {n
         exact absurd (hcap j hj hmj hmd) (Nat.not_lt_zero _)
       · rename_i hshape
         have hshape' : isMixShape t i r' = false := by simpa using hshape
-        have hmp : mixParts t (policyOf c) i r' = none := mixParts_none hshape'
+        have hmp : mixParts (policyOf c) i r' = none :=
+          mixParts_none (p := policyOf c) (hT.mixAgree i hio) hshape'
         refine .binReg l' i r' hmp (fun _ => h2) ?_ ?_
         · intro hm
           rcases hrest.1 with h0 | h0
@@ -223,22 +223,22 @@ theorem bridge_step {t : Tbl} {c : Cells} {ops : List Nat} (hT : TableOK t c ops
       obtain ⟨a, s, b, hr, hm⟩ := isMixShape_true hshape
       subst hr
       obtain ⟨hso, hwa, hwb⟩ := wfMix_bin hrest
-      obtain ⟨_, hhack, hsl⟩ := hT.mixHack o ho s hm
-      have hmp := mixParts_of_shape (t := t) (c := c) a b hm hhack
+      obtain ⟨_, hsl⟩ := hT.mixSepOK o ho s hm
+      have hmp := mixParts_of_shape (c := c) a b (by rw [← hT.mixAgree o ho]; exact hm)
       simp only [Ex.size] at hs
-      have hA : (policyOf c).dropL s a = true → AllGE t (policyOf c) ops (t.rbp o) a := by
+      have hA : (policyOf c).dropML o a = true → AllGE t (policyOf c) ops (t.rbp o) a := by
         intro hd
-        have hd' : c.dropL s (kindOf a) = true := hd
-        exact child_allGE ih a (by omega) hwa (t.rbp o) (cell := c.dropL s) hd' (hT.unL s hso)
+        have hd' : c.dropML o (kindOf a) = true := hd
+        exact child_allGE ih a (by omega) hwa (t.rbp o) (cell := c.dropML o) hd' (hT.unML o ho)
           (fun k hk hc _ => (hT.mixL o ho s hm k hk hc).2)
-      have hB : ∀ x, x ≤ t.rbp2 o → (policyOf c).dropR s b = true →
+      have hB : ∀ x, x ≤ t.rbp2 o → (policyOf c).dropMR o b = true →
           AllGE t (policyOf c) ops x b := by
         intro x hx hd
-        have hd' : c.dropR s (kindOf b) = true := hd
-        exact child_allGE ih b (by omega) hwb x (cell := c.dropR s) hd' (hT.unR s hso)
+        have hd' : c.dropMR o (kindOf b) = true := hd
+        exact child_allGE ih b (by omega) hwb x (cell := c.dropMR o) hd' (hT.unMR o ho)
           (fun k hk hc _ => Nat.le_trans hx (hT.mixR o ho s hm k hk hc).2)
       refine ⟨?_, ?_⟩
-      · refine .binMix l o _ a s b hmp hi hlicl (ih a (by omega) hwa).1 (ih b (by omega) hwb).1
+      · refine .binMix l o _ a s b hmp hm hi hlicl (ih a (by omega) hwa).1 (ih b (by omega) hwb).1
           hsl hL ?_ ?_
         · intro hd
           refine ⟨(hA hd).toFits, (hA hd).stops hT s hsl ?_⟩
@@ -253,7 +253,8 @@ theorem bridge_step {t : Tbl} {c : Cells} {ops : List Nat} (hT : TableOK t c ops
     · -- regular reading
       rename_i hshape
       have hshape' : isMixShape t o r = false := by simpa using hshape
-      have hmp : mixParts t (policyOf c) o r = none := mixParts_none hshape'
+      have hmp : mixParts (policyOf c) o r = none :=
+        mixParts_none (p := policyOf c) (hT.mixAgree o ho) hshape'
       have hR : ∀ x, x ≤ t.rbp o → (policyOf c).dropR o r = true →
           AllGE t (policyOf c) ops x r := by
         intro x hx hd
